@@ -27,7 +27,7 @@ Theorem C12_no_error_iff_config : forall (kv : list (Z * Z)) (raw : config), raw
   l_s_bidi a <= c_mis c /\ l_s_uni a <= c_mius c /\
   l_cid a <= protoMaxActiveConnectionIDs /\
   Z.min (l_dgram a) (Z.min (l_udp a) protoMaxPacketBufferSize - minPacketOverhead) <= (if c_dg c then wireMaxDatagramSize else 0) /\
-  (0 < l_idle a /\ l_idle a <= c_idle c).
+  (if adv_idle_fin (l_idle a) then l_idle a <= c_idle c else noIdleNs <= c_idle c).
 Proof.
   exact (fun kv raw H =>
     iff_trans (no_error_iff (advertised kv) (enforced (populate raw)) (populated_enforced_sane raw H))
@@ -52,7 +52,7 @@ Print Assumptions C12_plain_client_ok.
 
 (** The spec-driven client (repaired newUClientConnection: the Config is raised to the spec's
     values before preSetup, the connection ID manager honours the advertised limit): for every
-    parameter list that advertises an idle timeout and stream counts within the protocol maximum,
+    parameter list with stream counts within the protocol maximum (with or without an idle timeout),
     and EVERY Config, enforced >= advertised, hence no locally generated error against a
     conformant peer. *)
 Theorem C12_spec_client_ok : forall (kv : list (Z * Z)) (c : config), spec_valid (advertised kv) ->
@@ -119,12 +119,19 @@ Theorem C12_old_witnesses_now_fine :
 Proof. exact old_witnesses_now_fine. Qed.
 Print Assumptions C12_old_witnesses_now_fine.
 
-(** Still refuted (open finding, only reachable with a hand-made spec): a parameter list without
-    max_idle_timeout tells the peer "no idle timeout", the client gives up after Config.MaxIdleTimeout. *)
-Theorem C12_idle_not_advertised_refuted : forall a (c : config), l_idle a <= 0 -> 0 < c_idle c ->
-  play a (enforced_spec a c) [EvSilence (l_idle (enforced_spec a c)) 0 0] = Err IdleTimeout.
-Proof. exact idle_not_advertised_refuted. Qed.
-Print Assumptions C12_idle_not_advertised_refuted.
+(** A parameter list WITHOUT max_idle_timeout (hand-made or suppressed) tells the peer "no idle
+    timeout": the repaired client then has none of its own (the enforced value is the "no idle
+    timeout" constant; applyTransportParams still takes the minimum with the peer's value), so the
+    list is covered like any other -- [C12_spec_client_ok] needs no hypothesis about the idle timeout.
+    Regression: the shape before (giving up after Config.MaxIdleTimeout all the same) was refuted. *)
+Theorem C12_idle_not_advertised_ok : forall a (c : config), l_idle a <= 0 -> noIdleNs <= l_idle (enforced_spec a c).
+Proof. exact idle_not_advertised_ok. Qed.
+Print Assumptions C12_idle_not_advertised_ok.
+
+Example C12_old_shape_idle_not_advertised_refuted : forall a (c : config), l_idle a <= 0 -> 0 < c_idle c < noIdleNs ->
+  play a (enforced c) [EvSilence (c_idle c) 0 0] = Err IdleTimeout.
+Proof. exact idle_not_advertised_old_shape_refuted. Qed.
+Print Assumptions C12_old_shape_idle_not_advertised_refuted.
 
 (** Non-vacuity: conformant histories exist and are played through (13 events, all kinds). *)
 Example C12_conformant_history_exists :
